@@ -27,6 +27,8 @@ SKELETONS: list[tuple[str, list[tuple]]] = [
     ("for-top", SHORT_PRE + [(0, "for"), (1, "mark"), (1, "bright"), (1, "mark"), (0, "mark")]),
     ("while-top", SHORT_PRE + [(0, "while"), (1, "mark"), (1, "aug"), (0, "mark")]),
     ("def-call", SHORT_PRE + [(0, "def"), (1, "mark"), (1, "if"), (2, "mark"), (1, "ret"), (0, "mark"), (0, "call", 6), (0, "mark")]),
+    # a helper that binds a local of the name of a global (comment lines at column 0 inside the body must not change whose `v` that is)
+    ("def-local", SHORT_PRE + [(0, "def"), (1, "local"), (1, "mark"), (1, "if"), (2, "local"), (1, "ret"), (0, "mark"), (0, "call", 6), (0, "mark")]),
     ("try-except", SHORT_PRE + [(0, "try"), (1, "mark"), (1, "bright"), (0, "except", 6), (1, "mark"), (0, "mark")]),
     ("main-if-else", SHORT_PRE + [(0, "main"), (1, "mark"), (1, "if"), (2, "bright"), (2, "mark"), (1, "else"), (2, "mark"),
                                   (1, "mark"), (1, "sleep")]),
@@ -43,7 +45,7 @@ SKELETONS: list[tuple[str, list[tuple]]] = [
 ]
 
 HEADER_KINDS = {"if", "elif", "else", "for", "while", "def", "try", "except", "main"}
-LOCATABLE = {"mark", "bright", "sleep", "blink", "aug", "call", "ret", "if", "elif", "for", "while", "def"}
+LOCATABLE = {"mark", "bright", "sleep", "blink", "aug", "local", "call", "ret", "if", "elif", "for", "while", "def"}
 
 # spacing variants: 0 canonical, 1 loose, 2 tight, 3 space before the call parenthesis, 4 around the dot, 5 doubled blanks,
 # 6 keyword directly against a parenthesis (`if(v == 1):`, `while(True):`, `return(a)`), 7 parenthesised after a blank,
@@ -60,6 +62,7 @@ TEXT = {
     "sleep": {0: "sleep({K})", 1: "sleep( {K} )", 3: "sleep ({K})"},
     "blink": {0: "led.blink({K}, 2)", 1: "led.blink( {K} , 2 )", 2: "led.blink({K},2)", 3: "led.blink ({K}, 2)", 4: "led . blink({K}, 2)"},
     "aug":   {0: "v = v + {K}", 1: "v  =  v  +  {K}", 2: "v=v+{K}"},
+    "local": {0: "v = {K}", 1: "v  =  {K}", 2: "v={K}"},
     "call":  {0: "f{R}({K})", 1: "f{R}( {K} )", 3: "f{R} ({K})"},
     "ret":   {0: "return a + {K}", 1: "return  a  +  {K}", 2: "return a+{K}", 6: "return(a + {K})", 7: "return (a + {K})", 8: "return ( a + {K} )"},
     "if":    {0: "if v == {K}:", 1: "if v  ==  {K} :", 2: "if v=={K}:", 6: "if(v == {K}):", 7: "if (v == {K}):", 8: "if ( v == {K} ):"},
